@@ -163,7 +163,7 @@ CHECKS["C06"] = {
          "no_native": False,
          "what": "every completion order of concurrently resolved fields / list elements at blocking points (plus 1 preemption, thorough) on 5 families x outcome deviations; data and error multiset equal the reference on each; vector-clock race check on every load/store"},
         {"probe": "core", "harness": "Harness_C06_invalids", "setup": "Setup_C06_schedules", "reach": ["c06.invalids"], "workers": 6, "race": True,
-         "configs_quick": ["single", "wl2"], "configs_thorough": ["single", "wl1", "wl2", "follow"],
+         "configs_quick": ["single", "wl1", "wl2"], "configs_thorough": ["single", "wl1", "wl2", "follow"],
          "quick": {"preempt": 1}, "thorough": {"preempt": 2}, "native_retries": 3000,
          "what": "several non-null siblings failing concurrently (fixed outcomes): every schedule incl. preemptions; race check on the shared field set"},
         {"probe": "core", "harness": "Harness_C06_mutationSerial", "setup": "Setup_C06_schedules", "reach": ["c06.serial"], "workers": 6, "race": True,
@@ -195,13 +195,13 @@ CHECKS["C05"] = {
                     "liveness is rendered as: the main task reaches its return (a state where every task is blocked is a deadlock violation), and zzsym.Quiesce() counts tasks still alive"],
     "harnesses": [
         {"probe": "core", "harness": "Harness_C05_cancelList", "setup": "Setup_C05_cancelList", "reach": ["c05.list"], "workers": 8, "sched": "first",
-         "configs_quick": ["single", "wl1", "wl2"], "configs_thorough": ["single", "wl1", "wl2", "follow_wl2"],
+         "configs_quick": ["single", "wl1", "wl2"], "configs_thorough": ["single", "wl1", "wl2", "wl8", "follow_wl2"],
          "what": "list fan-out of 3 + 2 elements, context cancelled at 9 points (never, before, inside the k-th resolver call), worker_limit 0/1/2: join terminates, nothing left running"},
         {"probe": "core", "harness": "Harness_C05_deferOnce", "setup": "Setup_C05_deferOnce", "reach": ["c05.defer"], "workers": 8, "sched": "first",
-         "configs_quick": ["single"], "configs_thorough": ["single", "wl2"],
+         "configs_quick": ["single", "follow"], "configs_thorough": ["single", "follow", "wl2"],
          "what": "7 @defer families consumed for one payload then cancelled (single-response transports): no task left blocked"},
-        {"probe": "core", "harness": "Harness_C05_deferCancel", "setup": "Setup_C05_deferCancel", "reach": ["c05.defercancel"], "workers": 10, "sched_confirm": True,
-         "configs_quick": ["single"], "configs_thorough": ["single", "wl2"], "quick": {"sample_models": 8, "sample_every": 53},
+        {"probe": "core", "harness": "Harness_C05_deferCancel", "setup": "Setup_C05_deferCancel", "reach": ["c05.defercancel"], "workers": 10, "sched_confirm": True, "native_retries": 600,
+         "configs_quick": ["single", "follow"], "configs_thorough": ["single", "follow", "wl2"], "quick": {"sample_models": 8, "sample_every": 53},
          "what": "7 @defer families drained by a streaming consumer with the context cancelled at 7 points (inside a resolver call / after a payload), every schedule and select choice: the response function returns, no task left"},
     ],
 }
@@ -226,7 +226,7 @@ CHECKS["C20"] = {
                     "expected element i is computed from representation i alone (and the fault table)"],
     "harnesses": [
         {"probe": "fed", "harness": "Harness_C20_entities", "setup": "Setup_C20_entities", "reach": ["c20.compared"], "workers": 12, "sched": "first",
-         "configs_quick": ["fed_single"], "configs_thorough": ["fed_single", "fed_follow", "fed_wl2", "fed_explicit", "fed_computed"],
+         "configs_quick": ["fed_single", "fed_v1"], "configs_thorough": ["fed_single", "fed_v1", "fed_follow", "fed_wl2", "fed_explicit", "fed_computed"],
          "quick": {"params": {"maxreps": 2, "budget": 1}, "sample_models": 40, "sample_every": 17},
          "thorough": {"params": {"maxreps": 3, "budget": 1}, "sample_models": 120, "sample_every": 211},
          "what": "generated __resolve_entities on lists of 0..2 (quick) / 0..3 (thorough) representations over 11 shapes with at most one failing lookup (error / panic)"},
@@ -401,7 +401,7 @@ CHECKS["C03"]["harnesses"].append(
 
 CHECKS["C06"]["harnesses"].append(
     {"probe": "core", "harness": "Harness_C06_listInvalids", "setup": "Setup_C06_schedules", "reach": ["c06.listinvalids"], "workers": 8, "race": True,
-     "configs_quick": ["single", "wl1", "wl2"], "configs_thorough": ["single", "wl1", "wl2", "follow_wl2"], "quick": {"sample_models": 6, "sample_every": 5}, "thorough": {"preempt": 1, "sample_models": 10, "sample_every": 31}, "native_retries": 3000,
+     "configs_quick": ["single", "wl1", "wl2"], "configs_thorough": ["single", "wl1", "wl2", "wl8", "follow_wl2"], "quick": {"sample_models": 6, "sample_every": 5}, "thorough": {"preempt": 1, "sample_models": 10, "sample_every": 31}, "native_retries": 3000,
      "what": "three elements of a [T!] list each failing in a non-null field, worker_limit 0/1/2: the list is null and all three errors are reported on every completion order; race check"})
 
 CHECKS["C09"]["harnesses"].append(
@@ -496,7 +496,7 @@ CHECKS["C02"]["harnesses"].append(
 
 CHECKS["C05"]["harnesses"].append(
     {"probe": "core", "harness": "Harness_C05_nestedLists", "setup": "Setup_C05_nestedLists", "reach": ["c05.nested"], "workers": 8, "sched": "first",
-     "configs_quick": ["single", "wl1", "wl2"], "configs_thorough": ["single", "wl1", "wl2", "follow_wl2"],
+     "configs_quick": ["single", "wl1", "wl2"], "configs_thorough": ["single", "wl1", "wl2", "wl8", "follow_wl2"],
      "what": "three levels of nested object lists (2..3 x 2..3 x 2 elements), worker_limit 0/1/2, no fault: the join terminates with the plain result (deadlock = every task blocked), nothing left running"})
 
 CHECKS["C10"]["harnesses"].append(
@@ -524,7 +524,7 @@ CHECKS["C04"]["harnesses"].append(
 
 CHECKS["C02"]["harnesses"].append(
     {"probe": "opts", "harness": "Harness_C02_options", "setup": "Setup_C02_options", "reach": ["c02.opts.coerced", "c02.opts.rejected"], "workers": 4, "sched": "first",
-     "configs_quick": ["opts_default", "opts_retptr", "opts_valstruct"], "configs_thorough": ["opts_default", "opts_retptr", "opts_valstruct", "opts_slices", "opts_all"], "quick": {"sample_models": 13},
+     "configs_quick": ["opts_default", "opts_retptr", "opts_valstruct", "opts_omittable"], "configs_thorough": ["opts_default", "opts_retptr", "opts_valstruct", "opts_slices", "opts_omittable", "opts_all"], "quick": {"sample_models": 13},
      "what": "a third probe (generated models only): input objects (non-null and nullable arguments, nested, in lists, literals and variables, 13 cases) through the generated binders under return_pointers_in_unmarshalinput / struct_fields_always_pointers: false / omit_slice_element_pointers: the resolver receives the coerced input; a field that cannot be coerced is one error at its own path, no panic, resolver not called"})
 
 CHECKS["C07"]["harnesses"].append(
@@ -566,3 +566,39 @@ CHECKS["C15"]["harnesses"].append(
     {"pkg": "graphql/handler/extension", "harness": "Harness_C15_concurrentLookups", "workers": 8, "race": True, "reach": ["apq.lookups"],
      "quick": {"preempt": 2, "sample_models": 12, "sample_every": 7}, "thorough": {"preempt": 3, "sample_models": 20, "sample_every": 101}, "native_retries": 3000,
      "what": "two concurrent hash-only requests (same / different hashes, after an optional earlier hit) against the real LRU of graphql/handler/lru: every interleaving incl. 2 [3] preemptions at locks and atomic operations: each resolves to the text with its own hash; race check"})
+
+CHECKS["C15"]["harnesses"].append(
+    dict(_HTTP, harness="Harness_C15_server", setup="Setup_C15_server", reach=["c15.server"], workers=10, variant="evict",
+         quick={"params": {"hist": 3, "texts": 3, "evict": 1}, "sample_models": 40, "sample_every": 97}, thorough={"params": {"hist": 4, "texts": 3, "evict": 1}, "sample_models": 60, "sample_every": 997, "workers": 14},
+         what="histories of 3 [4] HTTP requests over 3 texts x 10 request kinds with the registry an unbounded map or the real LRU with room for 1 / 2 entries (evictions happen), against an exact model (least recently registered-or-resolved first): a hash-only request executes the registered text or is answered NotFound exactly as the model says"))
+
+# the websocket transport is a caller of CreateOperationContext like the HTTP ones: a start that the executor rejects (validation, or an
+# extension's verdict without a protocol error code) never reaches DispatchOperation (C03's gate at that transport)
+CHECKS["C03"]["harnesses"].append(
+    dict(_WS, harness="Harness_C11_subscribe", reach=["c11.sub.ran", "c11.sub.rejected"], quick={"sample_models": 20, "sample_every": 7}, thorough={"params": {"maxpayloads": 3}, "sample_models": 40, "sample_every": 13},
+         what="websocket subscribe over executor verdicts {accepted, rejected with a protocol-kind error, rejected by an extension (no protocol code)} x 0..2 [3] payloads x panic step: a rejected start is answered with an error frame and complete, and nothing is dispatched (shared with C11)"))
+# one-element lists are the case a worker limit's slot accounting gets wrong first: the deep-sibling operations (one-element lists at every level) under a limit
+CHECKS["C01"]["harnesses"].append(dict(_DEEP, configs_quick=["wl1"], configs_thorough=["wl1", "wl2", "follow_wl2"], tag="-wl",
+    what="the same operations (one-element lists of objects at every level) generated with worker_limit 1 [1, 2]: data and errors equal the reference"))
+
+_ERRVAL = {"probe": "core", "harness": "Harness_C04_errorWithValue", "setup": "Setup_C04_errorWithValue", "reach": ["c04.errval"], "workers": 4, "sched": "first",
+           "configs_quick": ["single", "follow"], "configs_thorough": ["single", "follow", "funcsyn", "wl1"], "quick": {"sample_models": 4},
+           "what": "resolvers returning an error together with a non-nil value on 4 operations (nullable, non-null with propagation, list element, a field carrying an executable directive): null and one error at the position, as for any failure"}
+CHECKS["C04"]["harnesses"].append(dict(_ERRVAL))
+CHECKS["C01"]["harnesses"].append(dict(_ERRVAL))
+
+CHECKS["C15"]["harnesses"].append(
+    {"pkg": "graphql/handler/extension", "harness": "Harness_C15_collidingKeys", "workers": 4, "reach": ["apq.colliding"], "quick": {"sample_models": 20},
+     "what": "5 pairs of texts whose SHA-256 hex strings collide under CRC-32 IEEE / Castagnoli, FNV-1a / FNV-1, Adler-32 (found by search), both registered in the real LRU in either order, then one hash sent alone: it resolves to its own text"})
+
+CHECKS["C16"]["harnesses"].append(
+    {"probe": "core", "harness": "Harness_C16_gate", "setup": "Setup_C16_gate", "reach": ["c16.gate.on", "c16.gate.off"], "workers": 4, "sched": "first",
+     "configs_quick": ["single"], "configs_thorough": ["single", "follow", "funcsyn"], "quick": {"sample_models": 12},
+     "what": "the gate end to end: executor.CreateOperationContext with extension.Introspection and a second context mutator that switches introspection off, registered in either order (or without the former) x 3 query shapes: the last registered decides; off = null, one error, no schema data"})
+
+CHECKS["C20"]["harnesses"].append(
+    {"probe": "fed", "harness": "Harness_C20_entities", "setup": "Setup_C20_entities", "reach": ["c20.compared"], "workers": 12, "race": True, "tag": "-schedfail",
+     "configs_quick": ["fed_single"], "configs_thorough": ["fed_single", "fed_wl2"], "sched_confirm": True,
+     "quick": {"params": {"maxreps": 3, "budget": 0, "shapes": 3, "gated": 1, "failing": 1}, "sample_models": 10, "sample_every": 17},
+     "thorough": {"params": {"maxreps": 4, "budget": 0, "shapes": 3, "gated": 1, "failing": 1}, "sample_models": 20, "sample_every": 97},
+     "what": "lists of 0..3 [4] representations over {a type's representation without any key, a resolvable one, an unknown type}: several failing representations of one type in one request, every completion order of the entity goroutines, race check: one error per failed representation"})
